@@ -97,7 +97,7 @@ def judge_trace(ctx, trace, source, kd, totals, max_events=None):
     cfg = write_tcfg(ctx, kd)
     with open(trace) as f:
         n = sum(1 for _ in f)
-    max_events = max_events or max(150, n // (2 * lib.NCPU) + 1)
+    max_events = max_events or min(250000, max(150, n // (2 * lib.NCPU) + 1))
     v = lib.judge(ctx, MODULE_T, cfg, trace, max_events=max_events, heap="3g")
     for k, val in v.items():
         if isinstance(val, int) and k not in ("events", "chunks"):
